@@ -159,8 +159,21 @@ def programs(rng, tier):
         a = noncanonical_variant(rng, random_bdd(rng, nv))
         b = noncanonical_variant(rng, random_bdd(rng, nv)) if rng.random() < 0.5 else random_bdd(rng, nv)
         k = rng.random()
-        if k < 0.4:
+        if k < 0.25:
             P.add(["named", "and", bdd_sx(a), bdd_sx(mk_true_nodes(nv))])
+        elif k < 0.4:
+            # idempotent combinations of a non-canonical operand with itself (one object in the harness) or an equal copy
+            P.add(["named", rng.choice(["and", "or", "and", "or", "iff", "imp", "xor", "and_not"]), bdd_sx(a), bdd_sx(a)])
+        elif k < 0.5:
+            # quantification that has nothing to do: an empty list, variables outside the support, all variables
+            sup = {n[0] for n in a[2:]}
+            outside = [x for x in range(nv) if x not in sup]
+            xs = rng.choice([[], outside, rng.sample(outside, min(len(outside), 1)), list(range(nv))])
+            P.add([rng.choice(["exists", "for_all"]), bdd_sx(a), ["L"] + [str(x) for x in xs]])
+        elif k < 0.55:
+            sup = {n[0] for n in a[2:]} | {n[0] for n in b[2:]}
+            outside = [x for x in range(nv) if x not in sup]
+            P.add([rng.choice(["bin_exists", "bin_for_all"]), partial_table(rng, rng.choice(CONNS)), bdd_sx(a), bdd_sx(b), ["L"] + [str(x) for x in rng.choice([[], outside])]])
         elif k < 0.7:
             P.add(["bin", partial_table(rng, rng.choice(CONNS)), bdd_sx(a), bdd_sx(b)])
         elif k < 0.85:
